@@ -16,6 +16,7 @@ from ..common import Result, sut, digest, SutRaised
 from ..taps import RandomTap, installed
 from ..stats import two_stage
 from .. import gen
+from ..interfere import interfere
 
 ID = "C03"
 RULE = ("small joint degree sequences whose placement space can be enumerated: k degree-1 vertices (k=4,6), mixed degrees with repeats, "
@@ -290,6 +291,12 @@ def run_case(case):
         hostile = len(n_c) >= 2 and case["seed"] % 2 == 0
         if hostile:
             res.count("stat_cases_with_a_callback_that_reseeds_the_random_source")
+        interfered = not hostile and case["seed"] % 3 == 1
+        if interfered:
+            # history: between two generations the caller uses OTHER features of the library (a cover, a percolation run, ...) which
+            # draw from the same random source; the placement law of the next generation must not care
+            res.count("stat_cases_with_other_features_used_between_generations")
+        irng = random.Random(case["seed"] + 99)
 
         def draw(n, stage):
             tap = RandomTap(seed=case["seed"] * 13 + stage, keep_log=False)
@@ -297,6 +304,8 @@ def run_case(case):
             for it in range(n):
                 if hostile:
                     tap.rng.seed(case["seed"] * 1000003 + stage * 7919 + it)      # the callbacks leave the source in a fixed state: start each draw afresh
+                if interfered:
+                    interfere(irng, tap, res, only=("MPCC", "EECC", "bond_percolate", "DrawSet"), k=1)
                 rec, out = run_once(cfg, jds, tap, hostile=hostile)
                 if network:
                     c[frozenset(gen.upair(e) for e in out.G.edges())] += 1
